@@ -94,6 +94,24 @@ StagesOf(name) ==
               <<22,3,1,0,5,1,0,0,1,0>>,                                                        \* TLS record
               <<71,69,84,32,47,32,72,84,84,80,47,49,46,49,13,10,72,111,115,116,58,32,120,13,10,13,10>> },
             {<<>>, <<120>>} >>
+    [] name = "UNISPACE" ->
+         \* multi-byte sequences a lenient hand-written check may take for white space, a line end,
+         \* a NUL or nothing at all - fed from EVERY abstract state, then one more byte
+         << { <<239, 187, 191>>,          \* U+FEFF byte order mark
+              <<194, 160>>,               \* U+00A0 no-break space
+              <<194, 133>>,               \* U+0085 next line
+              <<194, 173>>,               \* U+00AD soft hyphen
+              <<226, 128, 139>>,          \* U+200B zero width space
+              <<226, 128, 168>>,          \* U+2028 line separator
+              <<226, 128, 128>>,          \* U+2000 en quad
+              <<227, 128, 128>>,          \* U+3000 ideographic space
+              <<192, 128>>,               \* overlong NUL
+              <<192, 138>>,               \* overlong LF
+              <<224, 128, 160>>,          \* overlong SP
+              <<237, 160, 128>>,          \* surrogate
+              <<244, 144, 128, 128>>,     \* above U+10FFFF
+              <<11>>, <<12>> },           \* VT, FF (white space to some)
+            {<<>>, <<97>>, <<32>>, <<58>>, <<10>>} >>
     [] name = "DICT" ->
          \* realistic header names and values (code that special-cases particular headers)
          LET nm == { <<67,111,110,116,101,110,116,45,76,101,110,103,116,104>>,                \* Content-Length
@@ -122,7 +140,13 @@ Filler(ph) == IF ph \in {"OWS", "NAME_WS", "LWS", "RSKIP", "T0", "HLINE"} THEN S
 \* neighbour >= 0x80 (word-at-a-time arithmetic lets neighbouring lanes influence each other)
 \* while the text before it stays valid UTF-8
 \* "ws" filler: SP inside a value / reason (long whitespace runs in and at the end of fields)
-FillerAt(ph, k) == IF FillMode = "utf8" /\ ph \in {"TARGET", "VALUE", "REASON", "EXT", "IGN"}
+\* "utf84" / "utf83": `a` U+1F600 (4 bytes) / `aa` U+20AC (3 bytes), period 5 - coprime to every
+\* block width, so over a long field the lead byte visits every offset of a block
+U4 == <<97, 240, 159, 152, 128>>
+U3 == <<97, 97, 226, 130, 172>>
+FillerAt(ph, k) == IF FillMode = "utf84" /\ ph \in {"TARGET", "VALUE", "REASON", "EXT", "IGN"} THEN U4[(k % 5) + 1]
+                   ELSE IF FillMode = "utf83" /\ ph \in {"TARGET", "VALUE", "REASON", "EXT", "IGN"} THEN U3[(k % 5) + 1]
+                   ELSE IF FillMode = "utf8" /\ ph \in {"TARGET", "VALUE", "REASON", "EXT", "IGN"}
                    THEN (IF k % 2 = 0 THEN 195 ELSE 169)
                    ELSE IF FillMode = "ws" /\ ph \in {"VALUE", "REASON"} THEN SP
                    ELSE Filler(ph)
